@@ -151,6 +151,9 @@ func checkC04(c *Check) {
 	c04Exchange(c, R)
 	transportPreservesRequest(c, "C04.R2")
 	exchangeIsSentOnce(c, "C04.R2", R)
+	// the client credentials sent are the ones configured now: the handler works on the shared configuration or its own
+	// per-check clone, never on a memoised copy (C19.R5)
+	handlerConfigOwn(c, "C04.R2", R)
 	// BasicAuthHeader shape: "Basic " + base64(id + ":" + secret)
 	if ba := P.Func(pkgHTTP, "BasicAuthHeader"); c.Anchor("C04.R2", "BasicAuthHeader", ba != nil) {
 		ok := false
@@ -236,6 +239,13 @@ func checkC04(c *Check) {
 	c.Obl(distinct, "C04.R3", "distinct-draws", P.Pos(rd.Pos()), "session id, state, nonce are separate draws", "state/nonce/session id share a draw")
 
 	// ---- R4
+	// "cleared" means gone from the store: every successful Redis operation, ClearAuthorizationState included, has run its
+	// commands and passed the TTL refresher (C10.R3) — a deletion queued but not executed leaves the state replayable
+	if c.ID == "C04" {
+		if sr, miss := getStoreRoles(P); len(miss) == 0 {
+			refile(c, "C04.R4", func() { c10R3(c, sr) })
+		}
+	}
 	fsSet := ff.At(m.CbSetToken)
 	c.Obl(fsSet.CallErrNil(m.CbClear, -1) && sameVal(callArgs(m.CbClear)[1], m.CbSID) && sameVal(callArgs(m.CbSetToken)[1], m.CbSID), "C04.R4", "clear-before-bind", P.Pos(m.CbSetToken.Pos()),
 		"tokens are bound only after ClearAuthorizationState(sid) == nil, same sid", "the callback can bind tokens without having cleared the login state of the same session (replay of the callback would reach a second exchange)")
